@@ -365,6 +365,10 @@ def run_restore(spec, ctx):
                 if inp is None:
                     r, m = eng.check(timeout=20000)
                     inp = core.model_inputs(m, H.sym_names(s1)) if r == 'sat' else None
+                if inp is not None:
+                    # bit-level differences (a cached square vs. the square of a square root) show on some values only
+                    inp = dict(inp)
+                    inp['__alt__'] = [e for e in H.corner_inputs(H.sym_names(s1)) if all(e[n] > 0 for n in e if n.startswith('sg_'))][:60]
                 ctx.ob(f'rebuilt with {how}: result terms differ', 'sat' if inp else 'unknown',
                        {'mode': 'restore', 'model': key, 's1': list(s1), 'tie': tie, 'ls': ls, 'inputs': inp} if inp else None)
         ctx.add_engine(eng)
